@@ -374,7 +374,7 @@ fn enum_base() -> Scenario {
     Scenario {
         seed: 11,
         server: ep.clone(),
-        clients: vec![ClientCfg { endpoint: ep, conn: ConnScript { streams: vec![stream(Side::Client), stream(Side::Server)], close_code: None, datagrams: vec![] } }],
+        clients: vec![ClientCfg { endpoint: ep, conn: ConnScript { streams: vec![stream(Side::Client), stream(Side::Server)], close_code: None, datagrams: vec![], server_close: None } }],
         net: NetCfg::default(),
         cap_ms: 40_000,
         strays: vec![],
